@@ -656,6 +656,9 @@ class ObjectMethod(DeserializationMethod):
                 invalid_fields = add_invalid_field(invalid_fields, field.name)
         if self.aggregate_fields:
             remain = data.keys() - self.all_aliases
+            if discriminator is not None:
+                # the discriminator is not a property of the discriminated object
+                remain.discard(discriminator)
             for flattened_field in self.flattened_fields:
                 flattened: dict = {
                     alias: data[alias]
